@@ -199,6 +199,10 @@ def run(ctx):
     sheet_trace(ctx, g)
     cover_algebra(ctx, g)
     oriented_sheet_map(ctx, g)
+    # covers are built from coset tables of the fundamental group: the enumeration must work with exactly the given relators (all non-empty
+    # ones, every rotation and inverse) - a dropped one-letter relator makes covers of a larger group (shared with C11 / C12; seed C05-h)
+    from . import c12
+    c12.relators_unmodified(ctx, g)
     ctx.clauses += ["each cover is assembled from the base's operations and degrees (T9/T2)", "oriented cover: one sheet if oriented, two otherwise (T3/T4)"]
     cft = ctx.body("covers::cover_for_table")
     sc = ctx.body("covers::subgroup_cover")
